@@ -59,7 +59,10 @@ private:
       control_block = global_thread_block_list.acquire_entry();
       auto epoch = global_epoch.load(std::memory_order_relaxed);
       do {
-        control_block->local_epoch.store(epoch, std::memory_order_relaxed);
+        // This has to be a release-store: the control block might have been adopted from a terminated
+        // thread, and the happens-before relation to that thread (established by the acquire-CAS in
+        // try_adopt) must be passed on to threads that read this value in try_update_epoch.
+        control_block->local_epoch.store(epoch, std::memory_order_release);
 
         // (1) - this acq_rel-CAS synchronizes-with the acquire-load (2)
         //       and the acq_rel-CAS (5)
